@@ -254,7 +254,10 @@ func Select(hasDefault bool, cases ...Case) int {
 	e := cur
 	if e == nil || e.killed || e.cur == nil {
 		if e != nil && e.killed {
-			return -2
+			if hasDefault || len(cases) == 0 {
+				return -1
+			}
+			return 0
 		}
 		panic("vsched.Select outside an execution")
 	}
